@@ -83,7 +83,8 @@ structure Same (a b : Index) : Prop where
   sp : b.sitePackages = a.sitePackages
   ed : b.editable = a.editable
   ex : ∀ x, (ahas b.disk x || ahas b.cache x) = (ahas a.disk x || ahas a.cache x)
-  ct : ∀ f, b.content f = a.content f
+  /-- what a file's text parses to (the version kept in the cache may differ in what it carries) -/
+  ct : ∀ f, (b.content f).bind (·.parsed) = (a.content f).bind (·.parsed)
 
 theorem Same.rfl' (a : Index) : Same a a := ⟨rfl, rfl, rfl, rfl, fun _ => rfl, fun _ => rfl⟩
 
@@ -121,11 +122,11 @@ theorem resolveModule_same {a b : Index} (h : Same a b) (m : String) (f : Path) 
 /-- the files `f` passes plugin status on to: what it star-imports and what its `pytest_plugins`
     names, as far as they resolve to files -/
 def marksOf (st : Index) (f : Path) : List Path :=
-  match st.content f with
-  | some { parsed := some fr, .. } =>
+  match (st.content f).bind (·.parsed) with
+  | some fr =>
     (fr.imports.filter (·.isStar)).filterMap (fun imp => st.resolveModule imp.modulePath f) ++
     fr.plugins.filterMap (fun m => st.resolveModule m f)
-  | _ => []
+  | none => []
 
 theorem marksOf_same {a b : Index} (h : Same a b) (f : Path) : marksOf b f = marksOf a f := by
   have hr : b.resolveModule = a.resolveModule := by
@@ -434,21 +435,20 @@ theorem importScanFile_inv (st0 : Index) (P0 : List Path) (f : Path) (todo : Lis
     (∀ g, g ∈ acc.st.pluginFiles → g ∈ (importScanFile f acc).st.pluginFiles) ∧
     (f ∈ acc.st.pluginFiles → ∀ t, t ∈ marksOf st0 f → t ∈ (importScanFile f acc).st.pluginFiles) ∧
     (f ∉ acc.st.pluginFiles → (importScanFile f acc).st.pluginFiles = acc.st.pluginFiles) := by
-  have hct : acc.st.content f = st0.content f := h.same.ct f
+  have hct : (acc.st.content f).bind (·.parsed) = (st0.content f).bind (·.parsed) := h.same.ct f
   unfold importScanFile
-  rw [hct]
-  cases hc : st0.content f with
+  cases hc : acc.st.content f with
   | none =>
-    have hm : marksOf st0 f = [] := by unfold marksOf; rw [hc]
+    have hm : marksOf st0 f = [] := by unfold marksOf; rw [← hct, hc]; rfl
     refine ⟨h, fun g hg => hg, ?_, fun _ => rfl⟩
     intro _ t ht
     rw [hm] at ht
     cases ht
   | some v =>
-    obtain ⟨text, parsed⟩ := v
+    obtain ⟨text, parsed, carried⟩ := v
     cases parsed with
     | none =>
-      have hm : marksOf st0 f = [] := by unfold marksOf; rw [hc]
+      have hm : marksOf st0 f = [] := by unfold marksOf; rw [← hct, hc]; rfl
       refine ⟨h, fun g hg => hg, ?_, fun _ => rfl⟩
       intro _ t ht
       rw [hm] at ht
@@ -458,7 +458,7 @@ theorem importScanFile_inv (st0 : Index) (P0 : List Path) (f : Path) (todo : Lis
       have hm : marksOf st0 f =
           (fr.imports.filter (·.isStar)).filterMap (fun imp => st0.resolveModule imp.modulePath f) ++
           fr.plugins.filterMap (fun m => st0.resolveModule m f) := by
-        unfold marksOf; rw [hc]
+        unfold marksOf; rw [← hct, hc]; rfl
       by_cases hP : acc.st.pluginFiles.contains f = true
       · have hfP : f ∈ acc.st.pluginFiles := by simpa using hP
         have hreach : Reach st0 P0 f := h.reach f hfP
@@ -623,6 +623,8 @@ theorem analyzeNew_same (pfx : Path) (st0 st : Index) (m : Path) (hs : Same st0 
         by_cases hx : x = m
         · subst hx
           rw [alookup_ainsert_self, alookup_of_not_ahas _ _ hm, hl]
+          simp only [Option.bind_some]
+          exact (cachedAs_parsed st x v).1
         · rw [alookup_ainsert_ne _ _ _ _ hx]
       · intro g hg
         rw [hcache] at hg
